@@ -322,6 +322,26 @@ impl<'a> Ck<'a> {
         if is_zero != (v == 0) {
             self.viol("C06/is_zero/mismatch".to_string(), || json!({"input": inp(), "observed": is_zero}));
         }
+        // fractional-second accessors: the count of seconds as a float. The statement asks for the
+        // count "truncated toward zero with sub-unit parts of the same sign"; for the float forms
+        // only what the pinned evaluation `secs as f + nanos as f / 1e9` (floor seconds plus a
+        // non-negative fraction, which cancels for small negative values) guarantees is judged:
+        // never the opposite sign, exactly zero for zero, and a distance from the exact rational
+        // v / 10^9 of at most a few ulp *at the magnitude max(|v / 10^9|, 1)* (f64: 1e-15, f32: 1e-6).
+        if let Some((f64v, f32v)) = self.call("as_seconds_f64/f32", inp, || (td.as_seconds_f64(), td.as_seconds_f32())) {
+            self.loc.evals(2);
+            let exact = (v as f64) / 1e9; // two roundings, ≤ 1 ulp from the exact quotient
+            let scale = exact.abs().max(1.0);
+            let bad64 = if v == 0 { f64v != 0.0 } else { !f64v.is_finite() || (f64v < 0.0 && v > 0) || (f64v > 0.0 && v < 0) || (f64v - exact).abs() > 1e-15 * scale };
+            if bad64 {
+                self.viol(format!("C06/as_seconds_f64/not-the-count-of-seconds/{}", cls), || json!({"input": inp(), "expected_about": exact, "observed": f64v}));
+            }
+            let exact32 = exact as f32;
+            let bad32 = if v == 0 { f32v != 0.0 } else { !f32v.is_finite() || (f32v < 0.0 && v > 0) || (f32v > 0.0 && v < 0) || ((f32v as f64) - exact).abs() > 1e-6 * scale };
+            if bad32 {
+                self.viol(format!("C06/as_seconds_f32/not-the-count-of-seconds/{}", cls), || json!({"input": inp(), "expected_about": exact32, "observed": f32v}));
+            }
+        }
         if buckets {
             match cls {
                 "negative-fractional" => {
